@@ -1064,7 +1064,19 @@ func (l *Lowerer) trSelector(x *ast.SelectorExpr) (*Term, types.Type) {
 	}
 	pl := l.placeOfSelector(x)
 	if pl == nil {
-		// method value
+		// method value of a method of the package (go withRecover(b.responseReceiver)): a function value whose
+		// possible effects - whenever unknown code invokes it - are those of the method (like an escaping closure)
+		if sel, ok := l.info().Selections[x]; ok && sel.Kind() == types.MethodVal && !l.spec {
+			if fn, ok := sel.Obj().(*types.Func); ok && fn.Pkg() != nil {
+				if mfi := l.p.funcs[l.p.prefixOfType(sel.Recv())+namedOf(sel.Recv())+"."+fn.Name()]; mfi != nil && mfi.Body != nil {
+					l.tr(x.X)
+					for k := range l.p.modset(mfi) {
+						l.escapedHeap[k] = true
+					}
+					return l.alloc(), l.typeOf(x)
+				}
+			}
+		}
 		l.unsupported(x, "method value")
 		t := l.typeOf(x)
 		return l.freshVal(t), t
